@@ -1,5 +1,6 @@
 import MicroHttp.Props.C01
 import MicroHttp.Props.C01Buffer
+import MicroHttp.Props.C01IO
 #print axioms MicroHttp.C01.tryRead_err
 #print axioms MicroHttp.C01.tryRead_eof
 #print axioms MicroHttp.C01.tryRead_refines
@@ -12,3 +13,7 @@ import MicroHttp.Props.C01Buffer
 #print axioms MicroHttp.C01.reads00_simulate
 #print axioms MicroHttp.C01.copyLoop_spec
 #print axioms MicroHttp.C01.zeroLoop_spec
+#print axioms MicroHttp.C01.write_keeps_input
+#print axioms MicroHttp.C01.read_respects_input
+#print axioms MicroHttp.C01.output_side_invisible
+#print axioms MicroHttp.C01.history_input_is_reads_only
